@@ -1869,7 +1869,8 @@ impl Server {
         
         let mut new_members = 0;
         
-        // Process each score-member pair
+        // Parse every score-member pair first: a refused ZADD adds nothing
+        let mut pairs = Vec::with_capacity((parts.len() - 2) / 2);
         for i in (2..parts.len()).step_by(2) {
             let score = match &parts[i] {
                 RespFrame::BulkString(Some(bytes)) => {
@@ -1887,6 +1888,16 @@ impl Server {
                 _ => return Ok(RespFrame::error("ERR invalid member format")),
             };
             
+            pairs.push((member, score));
+        }
+        
+        // A key holding another type refuses the whole command as well
+        match self.storage.key_type(db, &key)?.as_str() {
+            "none" | "zset" => {}
+            _ => return Err(crate::error::StorageError::WrongType.into()),
+        }
+        
+        for (member, score) in pairs {
             // Add to sorted set 
             if self.storage.zadd(db, key.clone(), member, score)? {
                 new_members += 1;
